@@ -121,6 +121,13 @@ def r13_3(ctx, imp):
             n += 1
             e = strip(ret_expr(b), through_calls=False)
             ok = e[0] == "agg" and e[3] == "None"
+            if not ok:
+                # delegation to a sibling of the same impl that is judged itself (`pop_from_skip_buf` = `Self::pop_from_tail_buf(..)`)
+                for blk_, t_ in b.calls():
+                    g_ = F.local_callee(f, t_)
+                    if g_ is not None and g_ is not f and g_.path in set(imp["fns"]) and g_.name.startswith("pop_from_") and g_.built and e[0] == "call" and e[4] == (blk_, len(b.blocks[blk_]["stmts"])):
+                        e2 = strip(ret_expr(g_.built), through_calls=False)
+                        ok = e2[0] == "agg" and e2[3] == "None"
             ctx.verdict(ok, "R13.3", f, "pop-returns-None", f.loc(), "%s returns None (nothing is ever parked)" % f.name,
                         "the batched container's `%s` can return a parked batch: one source batch could be split over several items" % f.name)
         if f.name.startswith("push_into_") or f.name == "filter_map":
@@ -154,6 +161,14 @@ def r13_5(ctx, imp):
         pops = b.calls(r"::pop$")
         revs = b.calls(r"Iterator>?::rev$|::reverse$")
         where = f.loc()
+        if not ims and not pops:
+            # pure delegation to a sibling of the same impl with the same buffer (`push_into_skip_buf` = `Self::push_into_tail_buf`)
+            sib = [F.local_callee(f, t) for blk, t in b.calls() if F.local_callee(f, t) is not None and F.local_callee(f, t) is not f
+                   and F.local_callee(f, t).path in set(imp["fns"]) and (F.local_callee(f, t).name.startswith("push_into_") or F.local_callee(f, t).name.startswith("extend_"))]
+            if sib:
+                n += 1
+                ctx.holds("R13.5", f, "fifo", where, "delegates to `%s`, which is judged itself" % sib[0].name)
+                continue
         if ims:
             n += 1
             blk, t = ims[0]
